@@ -460,7 +460,8 @@ fn grid_case(t: Tier, scene: usize, r1: u32, ctx: &mut Ctx) {
 			for &ibs in ibss(t) {
 				let p = Plan { r1, r2, k, ibs };
 				let variants: Vec<(u64, usize)> = match scene {
-					0 | 11 => sound_rates(t).iter().map(|s| (*s as u64, 0)).collect(),
+					0 => sound_rates(t).iter().flat_map(|s| [(*s as u64, 0), (*s as u64, 1)]).collect(),
+					11 => sound_rates(t).iter().map(|s| (*s as u64, 0)).collect(),
 					4 | 7 | 9 => delay_us(t).iter().flat_map(|d| (0..4).map(move |pl| (*d, pl))).collect(),
 					10 => (0..LFO_HZ.len() as u64).flat_map(|f| (0..LFO_WAVES.len()).map(move |wv| (f, wv))).collect(),
 					// a corner well below every device rate, and one above a sixth of the lowest (3 kHz at 8 kHz is 0.375 of the rate)
@@ -471,12 +472,12 @@ fn grid_case(t: Tier, scene: usize, r1: u32, ctx: &mut Ctx) {
 					ctx.evals += 1;
 					ctx.traces += 1;
 					ord += 1;
-					let what = || format!("scene {} [{}{}]: {}", SCENES[scene], if scene == 0 || scene == 11 { format!("sound rate {} Hz", a) } else if scene == 10 { format!("{} LFO at {} Hz mapped to a track volume of -12..0 dB", LFO_WAVES[b], LFO_HZ[a as usize]) } else if scene == 5 || scene == 6 { format!("corner / centre at {} Hz", a) } else if scene == 4 || scene == 7 || scene == 9 { format!("delay_time {} us on the {} track{}", a, PLACEMENTS[b], if scene == 7 { "; the rate returns to the first rate immediately before callback 6" } else { "" }) } else { String::new() }, "", p.text());
+					let what = || format!("scene {} [{}{}]: {}", SCENES[scene], if scene == 0 || scene == 11 { format!("sound rate {} Hz{}", a, if b == 1 { ", the mirrored ramp played with reverse(true)" } else { "" }) } else if scene == 10 { format!("{} LFO at {} Hz mapped to a track volume of -12..0 dB", LFO_WAVES[b], LFO_HZ[a as usize]) } else if scene == 5 || scene == 6 { format!("corner / centre at {} Hz", a) } else if scene == 4 || scene == 7 || scene == 9 { format!("delay_time {} us on the {} track{}", a, PLACEMENTS[b], if scene == 7 { "; the rate returns to the first rate immediately before callback 6" } else { "" }) } else { String::new() }, "", p.text());
 					ctx.sample(ord, what);
 					let mut fails: Vec<(String, String)> = vec![];
 					let r = catch(|| match scene {
-						0 => scene_sound(&p, a as u32, false, &mut fails),
-						11 => scene_sound(&p, a as u32, true, &mut fails),
+						0 => scene_sound(&p, a as u32, false, b == 1, &mut fails),
+						11 => scene_sound(&p, a as u32, true, false, &mut fails),
 						13 => scene_compressor(&p, &mut fails),
 						12 => {
 							if p.k != NONE {
@@ -543,13 +544,14 @@ fn q(x: f64, step: f64) -> i64 {
 }
 
 /// 10 ms ramp sound: duration between the half-level crossings of its edges, and index slope per second
-fn scene_sound(p: &Plan, sr: u32, streaming: bool, fails: &mut Vec<(String, String)>) -> SceneObs {
+fn scene_sound(p: &Plan, sr: u32, streaming: bool, reversed: bool, fails: &mut Vec<(String, String)>) -> SceneObs {
 	let n = (sr / 100) as usize;
 	let ncb = 8;
 	let mut w = world(p.r1, p.ibs, log_cap(p, ncb), None);
 	warm(&mut w)?;
-	let frames: Vec<Frame> = (0..n).map(|i| Frame::from_mono(0.25 + 0.5 * i as f32 / n as f32)).collect();
-	let data = rig::static_data(sr, frames.clone());
+	// (reversed: the mirrored ramp played backwards is the same rising ramp)
+	let frames: Vec<Frame> = (0..n).map(|i| Frame::from_mono(0.25 + 0.5 * (if reversed { n - 1 - i } else { i }) as f32 / n as f32)).collect();
+	let data = rig::static_data(sr, frames.clone()).reverse(reversed);
 	let mut h = None;
 	let mut sh = None;
 	let mut dec_info = None;
